@@ -153,6 +153,9 @@ func buildEvidence(e *Engine, spec *PropSpec, prop, tier string, seed int, repor
 
 // writeReplay writes the replay file of a violation. Returns true when a concrete failing input was
 // reproduced against the real code.
+// replayBudget: number of counterexamples replayed against the real code per run (each costs a go test build)
+var replayBudget = 6
+
 func writeReplay(e *Engine, u *Unit, o *Obl, path string, reason string, repo string) bool {
 	var sb strings.Builder
 	fmt.Fprintf(&sb, "obligation: %s\nclass: %s\nat: %s\nwhat: %s\nverdict: %s (%s)\nsolver: %s %.2fs\n", o.Name, o.Class, o.Pos, o.Note, o.Status, reason, o.Solver, o.Secs)
@@ -170,7 +173,10 @@ func writeReplay(e *Engine, u *Unit, o *Obl, path string, reason string, repo st
 	}
 	sb.WriteString("\nsolver output:\n" + trunc(o.Raw, 4000) + "\n")
 	confirmed := false
-	if o.Status == "refuted" {
+	if o.Status == "refuted" && replayBudget <= 0 {
+		sb.WriteString("\nreplay budget of this run exhausted (only the first violations are replayed)\n")
+	} else if o.Status == "refuted" {
+		replayBudget--
 		if src, ok := u.concretize(o); ok {
 			res, out := runReplayTest(repo, u, src)
 			fmt.Fprintf(&sb, "\n--- generated replay test (in-package, injected with go test -overlay) ---\n%s\n--- replay result: %s ---\n%s\n", src, res, trunc(out, 3000))
